@@ -856,6 +856,11 @@ def gen_cases(rng, tier):
     cases.append(dict(text="(10^1000+1)/(10^990+7)", p=6, fam="bigfrac"))
     cases.append(dict(text="(10^600+1)/3", p=12, fam="bigfrac"))
     cases.append(dict(text="{10^1000, (10^1000+1) m}", p=6, fam="bigint"))
+    for pp in (0, 1, 17):          # fractions beyond the float range inside every container, at unusual precisions
+        cases.append(dict(text="((10^400+1)/3) m", p=pp, fam="bigfrac"))
+        cases.append(dict(text="{(10^400+1)/3, 1/3}", p=pp, fam="bigfrac"))
+        cases.append(dict(text="[(10^400+1)/3, (10^400+2)/3]", p=pp, fam="bigfrac"))
+        cases.append(dict(text="-(10^400+1)/7", p=pp, fam="bigfrac"))
     return cases
 
 
